@@ -1,6 +1,6 @@
 ENTRY = {
     "C17": {
-        "pkg": ".", "hdir": "dastard", "harness": DASTARD_COMMON + ["zz_verif_c03_test.go", "zz_verif_c10_test.go", "zz_verif_c11_test.go", "zz_verif_c17_test.go"], "test": "TestVerifC17",
+        "pkg": ".", "hdir": "dastard", "harness": DASTARD_COMMON + ["zz_verif_c03_test.go", "zz_verif_c04_test.go", "zz_verif_c10_test.go", "zz_verif_c11_test.go", "zz_verif_c17_test.go"], "test": "TestVerifC17",
         "engines": ["vexp", "vhook"], "runtime_patch": True, "gomaxprocs": 1, "race": True,
         "instrument": {"files": {
             "rpc_server.go": {},
@@ -8,8 +8,10 @@ ENTRY = {
                                         "GetState", "SetStateStarting", "SetStateInactive", "ArchiveDataBlock", "archiveNewDataBlock"]},
             "writing_state.go": {},
             "abaco.go": {"only": ["readerMainLoop", "getNextBlock", "distributeData", "Sample"]},
+            "lancero_source.go": {"only": ["launchLanceroReader", "getNextBlock", "ConfigureMixFraction", "distributeData"]},
             "asyncbufio/asyncbufio.go": {}}},
-        "textpatch": [{"file": "abaco.go", "old": "ticker := time.NewTicker(as.readPeriod)", "new": "ticker := vNewTicker(as.readPeriod)"},
+        "textpatch": [{"file": "lancero_source.go", "old": "ticker := time.NewTicker(ls.readPeriod)", "new": "ticker := vNewTicker(ls.readPeriod)"},
+                      {"file": "abaco.go", "old": "ticker := time.NewTicker(as.readPeriod)", "new": "ticker := vNewTicker(as.readPeriod)"},
                       {"file": "data_source.go", "old": "ds.numberWrittenTicker = time.NewTicker(1 * time.Second)", "new": "ds.numberWrittenTicker = vTickAlways(1 * time.Second)"},
                       {"file": "data_source.go", "old": "ds.writingState.externalTriggerTicker = time.NewTicker(time.Second * 1)", "new": "ds.writingState.externalTriggerTicker = vTickAlways(time.Second * 1)"},
                       {"file": "data_source.go", "old": "ds.writingState.dataDropTicker = time.NewTicker(time.Second * 10)", "new": "ds.writingState.dataDropTicker = vTickAlways(time.Second * 10)"}],
